@@ -10,9 +10,11 @@ rm -rf /tmp/mut-out-$P-$T; mv zz_out /tmp/mut-out-$P-$T
 CMD=$(python3 -c "import json;print(json.load(open('/tmp/mut-out-$P-$T/meta.json'))['demo_cmd'])" | sed 's/#.*//; s/^PATH=[^ ]* GOTOOLCHAIN=local GOFLAGS=-mod=mod GOPROXY=off GOSUMDB=off //')
 echo "demo cmd: $CMD"
 W=$(bash -c "$CMD" 2>&1 | tail -1)
-git stash -q
+# (git stash is shared between all worktrees of /repo: do not use it here)
+git diff > /tmp/mut-out-$P-$T/.wt.diff
+git checkout -q -- .
 WO=$(bash -c "$CMD" 2>&1 | tail -1)
-git stash pop -q
+git apply /tmp/mut-out-$P-$T/.wt.diff
 echo "with patch: $W"; echo "without patch: $WO"
 DEMO=$(git status --short | grep '^??' | awk '{print $2}' | grep -v zz_ | head -5 | tr '\n' ' ')
 [ -z "$DEMO" ] && DEMO=$(git status --short | grep '^??' | awk '{print $2}' | head -5 | tr '\n' ' ')
